@@ -360,6 +360,39 @@ func (sc *idxScenario) Invariant(tx *bbolt.Tx, mm explore.Model) error {
 			return fmt.Errorf("SetReadIndex.OpenValueCursor(%q) = %q, model says %v", role, viaCursor, want)
 		}
 	}
+	// index-driven lookups over several values: all-of (in index order of the first value) and any-of (as a set)
+	for _, vals := range [][]string{{}, {"r"}, {"rs"}, {"zz"}, {"r", "rs"}, {"rs", "r"}, {"r", "r"}, {"r", "zz"}, {"zz", "r"}, {"zz", "yy"}} {
+		var all, anyOf []string
+		for id, it := range m.items {
+			hasAll, hasAny := len(vals) > 0, false
+			for _, v := range vals {
+				found := false
+				for _, r := range it.roles {
+					if r == v {
+						found = true
+					}
+				}
+				hasAll = hasAll && found
+				hasAny = hasAny || found
+			}
+			if hasAll {
+				all = append(all, id)
+			}
+			if hasAny {
+				anyOf = append(anyOf, id)
+			}
+		}
+		sort.Strings(all)
+		sort.Strings(anyOf)
+		if got := sc.store.FindMatching(tx, sc.rolesIdx, vals); strings.Join(got, ",") != strings.Join(all, ",") {
+			return fmt.Errorf("FindMatching(roles, %q) = %v, model says %v", vals, got, all)
+		}
+		gotAny := append([]string{}, sc.store.FindMatchingAnyOf(tx, sc.rolesIdx, vals)...)
+		sort.Strings(gotAny)
+		if strings.Join(gotAny, ",") != strings.Join(anyOf, ",") {
+			return fmt.Errorf("FindMatchingAnyOf(roles, %q) = %v (sorted), model says %v", vals, gotAny, anyOf)
+		}
+	}
 	var gotKeys []string
 	sc.rolesIdx.ReadKeys(tx, func(val []byte) { gotKeys = append(gotKeys, string(val)) })
 	if strings.Join(gotKeys, ",") != strings.Join(wantKeys, ",") {
